@@ -349,7 +349,7 @@ def note_low_temperature(chk, fam, text, r):
 
 def run(chk):
     quick = chk.tier == "quick"
-    ok, log = chk.prove(["extract/Extract_C01.vo", "extract/Extract_ED.vo"], extra_props=["Properties_C14_source.v", "Properties_C14_copy.v"])
+    ok, log = chk.prove(["extract/Extract_C01.vo", "extract/Extract_ED.vo"], extra_props=["Properties_C14_source.v", "Properties_C14_copy.v", "Properties_C14_statics.v"])
     chk.trusted += ["translator/gen_copy.py (~150 lines: regular expressions over the copy constructor's initialiser list and body) and the meaning coq/theories/CopyShapes.v gives to such a constructor (field-wise state, base classes Thermal = {beta}, ComputableObject = {Status}); a constructor outside the recognised shape falls back to the snapshot and copies are then judged by the runs only",
                     "translator/gen_c01.py and translator/cexpr.py",
                     "translator/gen_lehmann.py with translator/cstmt.py (statement splitter + shape recognition): reads, one generated file per C++ function, "
